@@ -780,6 +780,7 @@ func c12Pure(r *core.Run, rule string) {
 	keep = append(keep, reachFrom(w, keep, pCodec, core.Module+"/pkg/util/bytes")...)
 	pureOfRuntimeState(r, rule, "encoding / decoding of a message", keep, nil)
 	noPooledResult(r, rule, keep)
+	noSingletonState(r, rule, "encoding / decoding of a message", keep)
 }
 
 func isBytesExpr(info *types.Info, e ast.Expr) bool {
